@@ -30,6 +30,13 @@ let run file =
   let bump k = Hashtbl.replace kinds k (1 + try Hashtbl.find kinds k with Not_found -> 0) in
   let case_id = ref "" and backend = ref Array and st = ref fl_empty and impl = ref fl_empty in
   let readers = ref [] in
+  (* (S) "rollback restores exactly the prior state", observable part: the allocating txid recorded when a page is
+     freed is the txid of the latest surviving Allocate of that page (events of rolled-back transactions are void) *)
+  let events : (int, (string * string) list) Hashtbl.t = Hashtbl.create 64 in    (* page -> [(kind, txid)] newest first *)
+  let tainted : (int, unit) Hashtbl.t = Hashtbl.create 16 in                      (* overflow members of rolled-back frees *)
+  let freed_by : (string, (int * int) list) Hashtbl.t = Hashtbl.create 8 in     (* txid -> [(head, ov)] *)
+  let hist_ok = ref true in          (* an out-of-place Reload/NoSyncReload/Init makes pages free again behind the records' back *)
+  let ev_push p e = Hashtbl.replace events p (e :: (try Hashtbl.find events p with Not_found -> [])) in
   let opidx = ref 0 and optext = Buffer.create 256 and flags = ref [] in
   let dead = ref false in
   let cur_op = ref [] in
@@ -47,6 +54,7 @@ let run file =
     | "case" :: id :: be :: _ ->
       incr cases; case_id := id; backend := (if be = "hashmap" then Hashmap else Array);
       st := fl_empty; impl := fl_empty; readers := []; opidx := 0; Buffer.clear optext; flags := []; dead := false;
+      Hashtbl.reset events; Hashtbl.reset tainted; Hashtbl.reset freed_by; hist_ok := true;
       Buffer.add_string optext be
     | "o" :: rest -> cur_op := rest; incr opidx; Buffer.add_string optext (String.concat " " rest); Buffer.add_char optext '\n'
     | "s" :: fields when not !dead ->
@@ -103,15 +111,37 @@ let run file =
            (match kind with
             | "alloc" ->
               if not (alloc_ok !backend impl_before.free (arg 2) choice ifree) then propfail "alloc_ok";
+              if ret <> "0" then begin
+                (* a page handed out twice without a free in between (only possible after an out-of-place reload): its record is not judged *)
+                (match (try Hashtbl.find events (int_of_string ret) with Not_found -> []) with
+                 | ("alloc", _) :: _ -> Hashtbl.replace tainted (int_of_string ret) () | _ -> ());
+                ev_push (int_of_string ret) ("alloc", List.nth !cur_op 1)
+              end;
               if ret <> "0" then flag "alloc-hit" else flag "alloc-miss"
             | "free" ->
-              if not (free_ok (arg 1) (arg 2) (arg 3) impl_before impl_after) then propfail "free_ok"; flag "free"
+              if not (free_ok (arg 1) (arg 2) (arg 3) impl_before impl_after) then propfail "free_ok"; flag "free";
+              let head = int_of_n (arg 2) and ov = int_of_n (arg 3) and tx = List.nth !cur_op 1 in
+              let expected = match (try Hashtbl.find events head with Not_found -> []) with ("alloc", t) :: _ -> t | _ -> "0" in
+              if !hist_ok && not (Hashtbl.mem tainted head) then
+                List.iter (fun (tid, t) -> if string_of_n tid = tx then
+                  List.iter (fun (pg, a) -> if int_of_n pg >= head && int_of_n pg <= head + ov && string_of_n a <> expected then
+                    propfail (Printf.sprintf "alloc_record page=%d recorded=%s expected=%s (the txid of its latest surviving allocation)" (int_of_n pg) (string_of_n a) expected)) t.t_ids) ipend;
+              for p = head to head + ov do ev_push p ("free", tx) done;
+              for p = head + 1 to head + ov do Hashtbl.replace tainted p () done;   (* records are kept per head page only *)
+              Hashtbl.replace freed_by tx ((head, ov) :: (try Hashtbl.find freed_by tx with Not_found -> []))
             | "release" ->
               if not (release_ok impl_before impl_after) then propfail "release_ok";
               if List.length ifree > List.length impl_before.free then flag "release-moved";
               if impl_before.readers <> [] && ipend <> [] then flag "release-held"
             | "rollback" ->
               if not (rollback_ok (arg 1) impl_before impl_after) then propfail "rollback_ok";
+              let tx = List.nth !cur_op 1 in
+              (* Rollback is a no-op for a transaction without pending frees (shared.Rollback returns early) *)
+              if List.exists (fun (tid, _) -> string_of_n tid = tx) impl_before.pending then
+                Hashtbl.filter_map_inplace (fun _ l -> Some (List.filter (fun (_, t) -> t <> tx) l)) events;
+              List.iter (fun (head, ov) -> for p = head + 1 to head + ov do Hashtbl.replace tainted p () done)
+                (try Hashtbl.find freed_by tx with Not_found -> []);
+              Hashtbl.remove freed_by tx;
               if List.length ipend < List.length impl_before.pending then flag "rollback-undid"
             | "write" ->
               let rb = ns_of_csv (get kv "rb") in
@@ -128,7 +158,7 @@ let run file =
               if int_of_n (estimated_write_size before_model) < need then propfail "estimate_too_small";
               if int_of_string (get kv "imglen") < need then propfail "image_too_small";
               if get kv "imgc" = "65535" then flag "serial-overflow" else flag "serial"
-            | "reload" | "nosync" -> flag "reload"
+            | "reload" | "nosync" -> flag "reload"; hist_ok := false
             | _ -> ())
          end)
     | "s" :: _ -> ()
